@@ -1,6 +1,9 @@
 //! C01 — forward chaining fires iff the condition holds; assignments store the RHS value.
 //!
-//! case := `G<0|1> F<n> {<keyhex> VALUE}*n U<m> RULE*m`
+//! case := `G<0|1> F<n> {<keyhex> VALUE}*n U<m> RULE*m [M<c>] [P<k> PHASE*k]`
+//!   M<c>  := EngineConfig::max_cycles (default 1)
+//!   PHASE := <p|w><n> {<keyhex> VALUE}*n   one more execute call on the SAME engine object, after the caller replaced
+//!            the listed top-level facts (`p`: in the same Facts object; `w`: in a new Facts object holding the same content)
 //!   VALUE := S<hex> | I<int> | N<f64 bits, 16 hex> | B0 | B1 | Z | X<hex> | A<n> VALUE*n | O<n> {<keyhex> VALUE}*n
 //!   RULE  := R<k> COND ACTION*k          ACTION := = <fieldhex> SRHS | ^ <fieldhex> SRHS
 //!   COND  := and COND COND | or COND COND | not COND | f <namehex> <op> SRHS | a SUM <cmp> ARHS
@@ -10,8 +13,9 @@
 //! Rules are built programmatically exactly as the parser builds them (Condition::new,
 //! Condition::with_test(text), Value::Expression(text)); with G1 the same rule set is also printed
 //! as GRL text and loaded through GRLParser (second stream: covers the parser/engine glue).
-//! obs  := `C RUN X RUN [G RUN]` ; RUN := <ok|err|panic> <evaluated> <fired> <k> {<rule> <facts>}*k <final facts>
-//!   (C = execute_with_callback, X = execute_at_time (no firings: k=0), G = callback run on the GRL-parsed rules)
+//! obs  := `{C RUN}*(1+k) {X RUN}*(1+k) [{G RUN}*(1+k)]` ; RUN := <ok|err|panic> <evaluated> <fired> <k> {<rule> <facts>}*k <final facts>
+//!   (C = execute_with_callback, X = execute_at_time (no firings: k=0), G = callback run on the GRL-parsed rules;
+//!    one engine object per stream, one RUN per execute call: the first call and one per PHASE)
 //!   facts := VALUE tokens of the whole store as one object, joined by ',', keys sorted.
 use rre_harness::*;
 use rust_rule_engine::engine::engine::{EngineConfig, RustRuleEngine};
@@ -69,10 +73,17 @@ struct SRule {
     acts: Vec<Act>,
 }
 #[derive(Clone, Debug)]
+struct Phase {
+    fresh: bool,
+    sets: Vec<(String, Value)>,
+}
+#[derive(Clone, Debug)]
 struct Case {
     grl: bool,
     facts: Vec<(String, Value)>,
     rules: Vec<SRule>,
+    max_cycles: usize,
+    phases: Vec<Phase>,
 }
 
 // ------------------------------------------------------------------ rendering (text the parser would see)
@@ -270,6 +281,19 @@ fn ser_case(c: &Case) -> String {
             }
         }
     }
+    if c.max_cycles != 1 {
+        out.push(format!("M{}", c.max_cycles));
+    }
+    if !c.phases.is_empty() {
+        out.push(format!("P{}", c.phases.len()));
+        for ph in &c.phases {
+            out.push(format!("{}{}", if ph.fresh { 'w' } else { 'p' }, ph.sets.len()));
+            for (k, v) in &ph.sets {
+                out.push(hex(k));
+                ser_value(v, &mut out);
+            }
+        }
+    }
     out.join(" ")
 }
 
@@ -408,10 +432,33 @@ fn parse_case(line: &str) -> Option<Case> {
         }
         rules.push(SRule { cond, acts });
     }
+    let mut max_cycles = 1;
+    if p.t.get(p.i).map_or(false, |t| t.starts_with('M')) {
+        max_cycles = p.count('M')?;
+    }
+    let mut phases = Vec::new();
+    if p.t.get(p.i).map_or(false, |t| t.starts_with('P')) {
+        let k = p.count('P')?;
+        for _ in 0..k {
+            let t = p.next()?;
+            let fresh = match &t[..1] {
+                "w" => true,
+                "p" => false,
+                _ => return None,
+            };
+            let n: usize = t[1..].parse().ok()?;
+            let mut sets = Vec::new();
+            for _ in 0..n {
+                let k = unhex(p.next()?)?;
+                sets.push((k, p.value()?));
+            }
+            phases.push(Phase { fresh, sets });
+        }
+    }
     if p.i != p.t.len() {
         return None;
     }
-    Some(Case { grl, facts, rules })
+    Some(Case { grl, facts, rules, max_cycles, phases })
 }
 
 // ------------------------------------------------------------------ building rules as the parser does
@@ -500,49 +547,73 @@ fn mk_facts(c: &Case) -> Facts {
     }
     f
 }
-fn mk_engine(rules: Vec<Rule>) -> Option<RustRuleEngine> {
+fn mk_engine(rules: Vec<Rule>, max_cycles: usize) -> Option<RustRuleEngine> {
     let kb = KnowledgeBase::new("c01");
     for r in rules {
         kb.add_rule(r).ok()?;
     }
-    let cfg = EngineConfig { max_cycles: 1, timeout: None, enable_stats: false, debug_mode: false };
+    let cfg = EngineConfig { max_cycles, timeout: None, enable_stats: false, debug_mode: false };
     Some(RustRuleEngine::with_config(kb, cfg))
 }
 fn rule_idx(name: &str) -> String {
     name.trim_start_matches('R').to_string()
 }
-fn run(rules: Vec<Rule>, c: &Case, callback: bool) -> String {
-    let Some(mut eng) = mk_engine(rules) else { return "badkb".into() };
-    let facts = mk_facts(c);
-    let firings: RefCell<Vec<String>> = RefCell::new(Vec::new());
-    let res = std::panic::catch_unwind(AssertUnwindSafe(|| {
-        if callback {
-            eng.execute_with_callback(&facts, |name, f| {
-                firings.borrow_mut().push(format!("{} {}", rule_idx(name), ser_facts_map(&f.get_all_facts())));
-            })
-        } else {
-            eng.execute(&facts) // = execute_at_time(facts, Utc::now())
+/// one engine object, one execute call per phase (the caller changes facts in between); `tag RUN` per call
+fn run(tag: &str, rules: Vec<Rule>, c: &Case, callback: bool) -> String {
+    let Some(mut eng) = mk_engine(rules, c.max_cycles) else { return format!("{} badkb", tag) };
+    let mut facts = mk_facts(c);
+    let mut out: Vec<String> = Vec::new();
+    for call in 0..=c.phases.len() {
+        if call > 0 {
+            let ph = &c.phases[call - 1];
+            if ph.fresh {
+                let f2 = Facts::new();
+                let all = facts.get_all_facts();
+                let mut ks: Vec<&String> = all.keys().collect();
+                ks.sort();
+                for k in ks {
+                    f2.add_value(k, all[k].clone()).unwrap();
+                }
+                facts = f2;
+            }
+            for (k, v) in &ph.sets {
+                facts.add_value(k, v.clone()).unwrap();
+            }
         }
-    }));
-    let (st, ev, fi) = match res {
-        Ok(Ok(r)) => ("ok", r.rules_evaluated, r.rules_fired),
-        Ok(Err(_)) => ("err", 0, 0),
-        Err(_) => ("panic", 0, 0),
-    };
-    let fs = firings.borrow();
-    let mut s = format!("{} {} {} {}", st, ev, fi, fs.len());
-    for f in fs.iter() {
+        let firings: RefCell<Vec<String>> = RefCell::new(Vec::new());
+        let res = std::panic::catch_unwind(AssertUnwindSafe(|| {
+            if callback {
+                eng.execute_with_callback(&facts, |name, f| {
+                    firings.borrow_mut().push(format!("{} {}", rule_idx(name), ser_facts_map(&f.get_all_facts())));
+                })
+            } else {
+                eng.execute(&facts) // = execute_at_time(facts, Utc::now())
+            }
+        }));
+        let (st, ev, fi) = match res {
+            Ok(Ok(r)) => ("ok", r.rules_evaluated, r.rules_fired),
+            Ok(Err(_)) => ("err", 0, 0),
+            Err(_) => ("panic", 0, 0),
+        };
+        let fs = firings.borrow();
+        let mut s = format!("{} {} {} {} {}", tag, st, ev, fi, fs.len());
+        for f in fs.iter() {
+            s.push(' ');
+            s.push_str(f);
+        }
         s.push(' ');
-        s.push_str(f);
+        s.push_str(&ser_facts_map(&facts.get_all_facts()));
+        out.push(s);
+        if st == "panic" {
+            break; // the engine / fact store may be poisoned: no further calls
+        }
     }
-    s.push(' ');
-    s.push_str(&ser_facts_map(&facts.get_all_facts()));
-    s
+    out.join(" ")
 }
 fn exec(case: &str) -> String {
     let Some(c) = parse_case(case) else { return "bad-case".into() };
     let prog = || c.rules.iter().enumerate().map(|(i, r)| compile_rule(i, r)).collect::<Vec<_>>();
-    let mut s = format!("C {} X {}", run(prog(), &c, true), run(prog(), &c, false));
+    let mut s = format!("{} {}", run("C", prog(), &c, true), run("X", prog(), &c, false));
     if c.grl {
         let mut rules = Vec::new();
         for (i, r) in c.rules.iter().enumerate() {
@@ -551,7 +622,7 @@ fn exec(case: &str) -> String {
                 Err(_) => return format!("{} G parse-error", s),
             }
         }
-        s.push_str(&format!(" G {}", run(rules, &c, true)));
+        s.push_str(&format!(" {}", run("G", rules, &c, true)));
     }
     s
 }
@@ -1003,12 +1074,419 @@ fn gen_case(rng: &mut Rng) -> Case {
         let acts = (0..nacts).map(|_| g.gen_act()).collect();
         rules.push(SRule { cond, acts });
     }
-    Case { grl, facts: g.facts.clone(), rules }
+    Case { grl, facts: g.facts.clone(), rules, max_cycles: 1, phases: vec![] }
+}
+
+// ------------------------------------------------------------------ generator: dedicated families
+fn tok(s: &str) -> Atom {
+    Atom::Tok(s.to_string())
+}
+fn single(a: Atom) -> Sum {
+    Sum { first: Term { first: a, rest: vec![] }, rest: vec![] }
+}
+/// `first op a op a …` grouped by precedence (`* / %` extend the current term, `+ -` start a new one)
+fn flat_sum(first: Atom, ops: Vec<(char, usize, usize, Atom)>) -> Sum {
+    let mut terms = vec![Term { first, rest: vec![] }];
+    let mut joins = Vec::new();
+    for (c, pl, pr, a) in ops {
+        if c == 'p' || c == 'm' {
+            joins.push((c, pl, pr));
+            terms.push(Term { first: a, rest: vec![] });
+        } else {
+            terms.last_mut().unwrap().rest.push((c, pl, pr, a));
+        }
+    }
+    let first = terms.remove(0);
+    Sum { first, rest: joins.into_iter().zip(terms).map(|((c, a, b), t)| (c, a, b, t)).collect() }
+}
+fn obj(kvs: Vec<(&str, Value)>) -> Value {
+    Value::Object(kvs.into_iter().map(|(k, v)| (k.to_string(), v)).collect())
+}
+fn eval_on(facts: &[(String, Value)], e: &Sum) -> Option<Value> {
+    let f = Facts::new();
+    for (k, v) in facts {
+        f.add_value(k, v.clone()).unwrap();
+    }
+    let s = render_sum(e);
+    std::panic::catch_unwind(|| rust_rule_engine::expression::evaluate_expression(&s, &f).ok()).ok().flatten()
+}
+fn wrap(rng: &mut Rng, c: Cond, other: Cond) -> Cond {
+    match rng.below(8) {
+        0 | 1 => Cond::Not(Box::new(c)),
+        2 => Cond::And(Box::new(c), Box::new(other)),
+        3 => Cond::Or(Box::new(other), Box::new(c)),
+        _ => c,
+    }
+}
+
+/// values of another `Value` variant whose TEXT is that of `v` (Integer 7 / Number 7.0 / String "7", true / "true", null / "null")
+fn type_alikes(v: &Value) -> Vec<Value> {
+    match v {
+        Value::Integer(i) => vec![Value::Number(*i as f64), Value::String(i.to_string())],
+        Value::Number(x) => {
+            let mut r = vec![Value::String(format!("{}", x))];
+            if x.fract() == 0.0 && x.abs() < 1e9 {
+                r.push(Value::Integer(*x as i64));
+            }
+            r
+        }
+        Value::String(s) => {
+            let mut r = Vec::new();
+            if let Ok(i) = s.parse::<i64>() {
+                r.push(Value::Integer(i));
+                r.push(Value::Number(i as f64));
+            } else if let Ok(x) = s.parse::<f64>() {
+                r.push(Value::Number(x));
+            }
+            match s.as_str() {
+                "true" => r.push(Value::Boolean(true)),
+                "false" => r.push(Value::Boolean(false)),
+                "null" => r.push(Value::Null),
+                _ => {}
+            }
+            r
+        }
+        Value::Boolean(b) => vec![Value::String(b.to_string())],
+        Value::Null => vec![Value::String("null".into())],
+        _ => vec![],
+    }
+}
+
+/// FAMILY long membership lists: `in` against arrays of 33..80 elements (a few at/below 32 as controls) of one type or
+/// mixed, written as a literal or held in a fact (flat / nested), probed with members, plain non-members and — mostly —
+/// non-members of another type with the same text; plain, negated and inside && / ||.
+fn gen_long_in(rng: &mut Rng) -> Case {
+    // the list: literal in the rule, or a fact the right-hand side names
+    let by_ref = rng.chance(2, 5);
+    // GRL text with a long list literal is rare and kept short: GRLParser needs time superlinear in the length of a
+    // `when` clause (80 quoted strings: ~4 s in a debug build) — the parser is not this property's subject
+    let mut grl = if by_ref { rng.chance(1, 3) } else { rng.chance(1, 10) };
+    let short_text = grl && !by_ref;
+    let n = match rng.below(12) {
+        _ if short_text => rng.range(33, 35),
+        0 => 31,
+        1 => 32,
+        2 | 3 => 33,
+        4 => 34,
+        5 => 64,
+        6 => 65,
+        7 => 80,
+        _ => rng.range(33, 80),
+    } as i64;
+    let base = rng.below(30) as i64;
+    let kind = if short_text { *rng.pick(&[0u64, 0, 2, 3, 5]) } else { rng.below(6) };
+    let mut list: Vec<Value> = (0..n)
+        .map(|k| {
+            let i = base + k;
+            match kind {
+                0 => Value::Integer(i),
+                1 => Value::String(i.to_string()),
+                2 => Value::Number(i as f64),
+                3 => Value::Number(i as f64 + 0.5),
+                4 => Value::String(format!("w{}", i)),
+                // mixed: disjoint numeric ranges per type, so that a type-alike probe is not a member by accident
+                _ => match k % 4 {
+                    0 => Value::Integer(i),
+                    1 => Value::String((i + 1000).to_string()),
+                    2 => Value::Number((i + 2000) as f64),
+                    _ => Value::Number(i as f64 + 3000.5),
+                },
+            }
+        })
+        .collect();
+    if kind >= 4 || rng.chance(1, 4) {
+        // words that are also the text of a boolean / of null — or the boolean / null themselves
+        let extra = match rng.below(4) {
+            0 => vec![Value::String("true".into()), Value::String("null".into())],
+            1 => vec![Value::Boolean(true), Value::Null],
+            2 => vec![Value::String("false".into())],
+            _ => vec![Value::Boolean(false), Value::String("null".into())],
+        };
+        for e in extra {
+            let at = rng.below(list.len() as u64) as usize;
+            list[at] = e;
+        }
+    }
+    let nprobes = if short_text { 1 } else { 1 + rng.below(3) as usize };
+    let mut facts: Vec<(String, Value)> = Vec::new();
+    let mut o: HashMap<String, Value> = HashMap::new();
+    let mut probe_names = Vec::new();
+    for i in 0..nprobes {
+        let e = list[rng.below(list.len() as u64) as usize].clone();
+        let alikes = type_alikes(&e);
+        let v = match rng.below(8) {
+            0 | 1 => e,                                            // a member
+            2 => Value::Integer(base + n + 7),                     // plain non-members
+            3 => Value::String("zz".into()),
+            _ if !alikes.is_empty() => alikes[rng.below(alikes.len() as u64) as usize].clone(),
+            _ => Value::Boolean(true),
+        };
+        if rng.chance(1, 3) {
+            o.insert(format!("c{}", i), v);
+            probe_names.push(format!("o.c{}", i));
+        } else {
+            facts.push((format!("c{}", i), v));
+            probe_names.push(format!("c{}", i));
+        }
+    }
+    let list_name = if rng.chance(1, 2) { "lst" } else { "o.codes" };
+    if by_ref {
+        if list_name == "lst" {
+            facts.push(("lst".into(), Value::Array(list.clone())));
+        } else {
+            o.insert("codes".into(), Value::Array(list.clone()));
+        }
+    } else if !G::grl_ok_value(&Value::Array(list.clone())) {
+        grl = false;
+    }
+    facts.push(("o".into(), Value::Object(o)));
+    facts.push(("a".into(), Value::Integer(1)));
+    let mut rules = Vec::new();
+    for (i, pn) in probe_names.iter().enumerate() {
+        let rhs = if by_ref { SRhs::Expr(single(tok(list_name))) } else { SRhs::Lit(Value::Array(list.clone())) };
+        let leaf = Cond::Field(pn.clone(), "in".into(), rhs);
+        let other = Cond::Field("a".into(), "eq".into(), SRhs::Lit(Value::Integer(rng.below(2) as i64)));
+        let cond = wrap(rng, leaf, other);
+        rules.push(SRule { cond, acts: vec![Act::Set(format!("hit{}", i), SRhs::Lit(Value::Boolean(true)))] });
+    }
+    Case { grl, facts, rules, max_cycles: 1, phases: vec![] }
+}
+
+/// FAMILY arithmetic text WITHOUT blanks around operators (`o.price-5`, `rate*2+e-1`): names ending in e/E (and others
+/// as controls) directly followed by an operator and a digit-initial operand; exponent numerals (`1e2`, `2E1`, and on
+/// the right of a comparison `2.5e-3`) as controls; as assignment right-hand side, right-hand side of a field
+/// comparison, and both sides of an arithmetic comparison.
+fn gen_tight(rng: &mut Rng) -> Case {
+    let grl = rng.chance(1, 3);
+    let numv = |rng: &mut Rng| {
+        if rng.chance(2, 3) {
+            Value::Integer(*rng.pick(&[1i64, 2, 3, 5, 8, 10, 20, 95, 100]))
+        } else {
+            Value::Number(*rng.pick(&[0.5, 1.5, 2.5, 10.0, 100.25, 0.25]))
+        }
+    };
+    let mut facts: Vec<(String, Value)> = Vec::new();
+    for k in ["price", "e", "sizE", "rate", "qty", "n1"] {
+        facts.push((k.to_string(), numv(rng)));
+    }
+    let mut o = Vec::new();
+    for k in ["e", "price", "scale", "sizE", "qty"] {
+        o.push((k, numv(rng)));
+    }
+    facts.push(("o".into(), obj(o)));
+    const E_FLAT: &[&str] = &["price", "e", "sizE", "rate"];
+    const E_NESTED: &[&str] = &["o.e", "o.price", "o.scale", "o.sizE"];
+    let name = |rng: &mut Rng, dotted: bool| -> Atom {
+        if rng.chance(4, 5) {
+            if dotted || rng.chance(1, 2) { tok(*rng.pick(E_NESTED)) } else { tok(*rng.pick(E_FLAT)) }
+        } else if dotted || rng.chance(1, 2) {
+            tok("o.qty")
+        } else {
+            tok(*rng.pick(&["qty", "n1"]))
+        }
+    };
+    let tight = |rng: &mut Rng| -> Sum {
+        // in GRL text an arithmetic value without blanks is an expression only if it contains a dot
+        let first = name(rng, grl);
+        let all_tight = rng.chance(3, 4);
+        let nops = 1 + rng.below(3);
+        let mut ops = Vec::new();
+        for _ in 0..nops {
+            let c = *rng.pick(&['m', 'm', 'm', 'p', 'p', 't', 'd', 'r']);
+            let a = if rng.chance(3, 4) {
+                tok(*rng.pick(&["5", "1", "10", "2", "3", "2.5", "0.5", "7", "100", "1e2", "2E1"]))
+            } else {
+                name(rng, false)
+            };
+            let (pl, pr) = if all_tight { (0, 0) } else { (rng.below(2) as usize, rng.below(2) as usize) };
+            ops.push((c, pl, pr, a));
+        }
+        flat_sum(first, ops)
+    };
+    let near_text = |rng: &mut Rng, v: &Option<Value>| -> String {
+        let t = match v {
+            Some(Value::Integer(i)) => (i + [-1i64, 0, 0, 1][rng.below(4) as usize]).to_string(),
+            Some(Value::Number(x)) if x.is_finite() => format!("{:?}", x + [-0.5, 0.0, 0.5][rng.below(3) as usize]),
+            _ => "5".to_string(),
+        };
+        if t.len() <= 12 && !t.contains('e') && !t.contains("inf") && !t.contains("NaN") { t } else { "1".into() }
+    };
+    let nrules = 1 + rng.below(3) as usize;
+    let mut rules = Vec::new();
+    for i in 0..nrules {
+        let e = tight(rng);
+        let val = eval_on(&facts, &e);
+        let other = Cond::Field("qty".into(), "gt".into(), SRhs::Lit(Value::Integer(*rng.pick(&[0i64, 1000]))));
+        let leaf = match rng.below(8) {
+            // the assignment carries the expression; the condition is a plain comparison
+            0 | 1 => other.clone(),
+            // field <cmp> tight expression, the field aimed near the expression's value
+            2 | 3 | 4 => {
+                let b = match &val {
+                    Some(Value::Integer(v)) => Value::Integer(v + [-1i64, 0, 0, 1][rng.below(4) as usize]),
+                    Some(Value::Number(x)) if x.is_finite() => Value::Number(x + [-0.5, 0.0, 0.5][rng.below(3) as usize]),
+                    _ => Value::Integer(5),
+                };
+                facts.push((format!("b{}", i), b));
+                Cond::Field(format!("b{}", i), (*rng.pick(&["ge", "le", "gt", "lt", "eq", "ne"])).into(), SRhs::Expr(e.clone()))
+            }
+            // tight expression <cmp> numeral (now and then an exponent numeral) / another tight expression
+            5 | 6 => {
+                let t = if rng.chance(1, 8) { (*rng.pick(&["2.5e-3", "1e2", "1E-1", "1.5e+1"])).to_string() } else { near_text(rng, &val) };
+                Cond::Arith(e.clone(), (*rng.pick(&["ge", "le", "gt", "lt", "eq", "ne"])).into(), ARhs::Num(t))
+            }
+            _ => Cond::Arith(e.clone(), (*rng.pick(&["ge", "lt", "eq", "ne"])).into(), ARhs::Expr(tight(rng))),
+        };
+        let cond = wrap(rng, leaf, other);
+        let act = if rng.chance(1, 2) {
+            Act::Set(format!("out{}", i), SRhs::Expr(e))
+        } else {
+            Act::Set(format!("out{}", i), SRhs::Expr(tight(rng)))
+        };
+        rules.push(SRule { cond, acts: vec![act] });
+    }
+    Case { grl, facts, rules, max_cycles: 1, phases: vec![] }
+}
+
+/// FAMILY one engine object, several cycles and several execute calls, thresholds that MOVE: conditions compare a
+/// field with arithmetic over other facts (dot-less names or nested ones; `floor + step`, `base * 2`, a plain
+/// reference, arithmetic on the left) while actions (in earlier cycles) and the caller (between calls, same or new
+/// Facts object) change those facts so that the condition's truth value flips.
+fn gen_moving(rng: &mut Rng) -> Case {
+    let grl = rng.chance(1, 4);
+    let dotted = rng.chance(1, 3);
+    let nm = |k: &str| if dotted { format!("cfg.{}", k) } else { k.to_string() };
+    let small = |rng: &mut Rng| Value::Integer(*rng.pick(&[0i64, 1, 2, 3, 5, 10]));
+    let big = |rng: &mut Rng| Value::Integer(*rng.pick(&[4i64, 9, 15, 23, 40]));
+    let mut facts: Vec<(String, Value)> = Vec::new();
+    let cfg_vals: Vec<(&str, Value)> = vec![
+        ("floor", small(rng)),
+        ("step", Value::Integer(*rng.pick(&[1i64, 2, 5, 10]))),
+        ("base", small(rng)),
+    ];
+    if dotted {
+        facts.push(("cfg".into(), obj(cfg_vals.clone())));
+    } else {
+        for (k, v) in &cfg_vals {
+            facts.push((k.to_string(), v.clone()));
+        }
+    }
+    facts.push(("q".into(), big(rng)));
+    facts.push(("o".into(), obj(vec![("qty", big(rng)), ("tier", Value::Integer(0)), ("flag", Value::Boolean(false))])));
+    let pad = |rng: &mut Rng| if grl { 1 } else { rng.below(3) as usize };
+    let lhs = |rng: &mut Rng| if rng.chance(1, 2) { "q".to_string() } else { "o.qty".to_string() };
+    // the moving threshold
+    let thr = |rng: &mut Rng| -> Sum {
+        let (p1, p2, p3, p4) = (pad(rng), pad(rng), pad(rng), pad(rng));
+        match rng.below(6) {
+            0 | 1 => flat_sum(tok(&nm("floor")), vec![('p', p1, p2, tok(&nm("step")))]),
+            2 => flat_sum(tok(&nm("base")), vec![('t', p1, p2, tok("2"))]),
+            3 => flat_sum(tok(&nm("base")), vec![('t', p1, p2, tok("2")), ('p', p3, p4, tok(&nm("step")))]),
+            4 => flat_sum(tok(&nm("floor")), vec![('p', p1, p2, tok("10"))]),
+            _ => single(tok(&nm("floor"))),
+        }
+    };
+    let nrules = 1 + rng.below(2) as usize;
+    let mut rules = Vec::new();
+    for _ in 0..nrules {
+        let l = lhs(rng);
+        let t = thr(rng);
+        let other = Cond::Field("o.tier".into(), "lt".into(), SRhs::Lit(Value::Integer(*rng.pick(&[0i64, 3, 100]))));
+        let leaf = match rng.below(5) {
+            0 | 1 | 2 => Cond::Field(l.clone(), (*rng.pick(&["ge", "gt", "ge", "gt", "le", "lt", "eq", "ne"])).into(), SRhs::Expr(t.clone())),
+            3 if t.rest.len() + t.first.rest.len() > 0 => {
+                Cond::Arith(t.clone(), (*rng.pick(&["le", "lt", "ge", "ne"])).into(), ARhs::Expr(single(tok(&l))))
+            }
+            _ => Cond::Arith(
+                flat_sum(tok(&l), vec![('m', pad(rng), pad(rng), tok(&nm("step")))]),
+                (*rng.pick(&["ge", "gt", "lt"])).into(),
+                ARhs::Expr(t.clone()),
+            ),
+        };
+        let cond = wrap(rng, leaf, other);
+        // self-modification: raise a name of the threshold, lower the compared field, or only count
+        let mut acts = Vec::new();
+        let (p1, p2) = (pad(rng).max(if grl { 1 } else { 0 }), pad(rng));
+        match rng.below(6) {
+            0 | 1 => acts.push(Act::Set(nm("floor"), SRhs::Expr(flat_sum(tok(&nm("floor")), vec![('p', p1, p2, tok(&nm("step")))])))),
+            2 => acts.push(Act::Set(nm("base"), SRhs::Expr(flat_sum(tok(&nm("base")), vec![('p', p1, p2, tok("3"))])))),
+            3 => acts.push(Act::Set(l.clone(), SRhs::Expr(flat_sum(tok(&l), vec![('m', p1, p2, tok(&nm("step")))])))),
+            4 => acts.push(Act::Set(nm("step"), SRhs::Expr(flat_sum(tok(&nm("step")), vec![('t', p1, p2, tok("2"))])))),
+            _ => acts.push(Act::Set("o.flag".into(), SRhs::Lit(Value::Boolean(true)))),
+        }
+        if rng.chance(1, 2) {
+            acts.push(Act::Set("o.tier".into(), SRhs::Expr(flat_sum(tok("o.tier"), vec![('p', 1, 1, tok("1"))]))));
+        }
+        rules.push(SRule { cond, acts });
+    }
+    let max_cycles = *rng.pick(&[1usize, 2, 3, 3, 4, 5, 8]);
+    let nphases = *rng.pick(&[0usize, 1, 1, 2, 2, 3]);
+    let mut phases = Vec::new();
+    for _ in 0..nphases {
+        let mut sets = Vec::new();
+        for _ in 0..1 + rng.below(2) {
+            match rng.below(4) {
+                0 | 1 => {
+                    if dotted {
+                        sets.push(("cfg".to_string(), obj(vec![("floor", small(rng)), ("step", Value::Integer(*rng.pick(&[1i64, 2, 5, 10]))), ("base", small(rng))])));
+                    } else {
+                        let k = *rng.pick(&["floor", "base", "step", "floor", "base"]);
+                        let v = if k == "step" { Value::Integer(*rng.pick(&[1i64, 2, 5, 10])) } else if rng.chance(1, 3) { big(rng) } else { small(rng) };
+                        sets.push((k.to_string(), v));
+                    }
+                }
+                2 => sets.push(("q".to_string(), if rng.chance(1, 2) { big(rng) } else { small(rng) })),
+                _ => sets.push(("o".to_string(), obj(vec![("qty", if rng.chance(1, 2) { big(rng) } else { small(rng) }), ("tier", Value::Integer(0)), ("flag", Value::Boolean(false))]))),
+            }
+        }
+        phases.push(Phase { fresh: rng.chance(1, 3), sets });
+    }
+    Case { grl, facts, rules, max_cycles, phases }
+}
+
+/// FAMILY ordinary generated case, run for several cycles and called again after the caller replaced some facts
+fn gen_again(rng: &mut Rng) -> Case {
+    let mut c = gen_case(rng);
+    c.max_cycles = *rng.pick(&[1usize, 2, 2, 3]);
+    let nphases = *rng.pick(&[1usize, 1, 2]);
+    let special = !c.grl;
+    for _ in 0..nphases {
+        let mut sets = Vec::new();
+        for _ in 0..1 + rng.below(3) {
+            if c.facts.is_empty() || rng.chance(1, 6) {
+                sets.push((rng.pick(FLAT).to_string(), gen_value(rng, special)));
+            } else {
+                let (k, old) = c.facts[rng.below(c.facts.len() as u64) as usize].clone();
+                let v = match old {
+                    Value::Object(mut m) if rng.chance(2, 3) => {
+                        // same object, one member replaced
+                        let k2 = *rng.pick(&["x", "y", "s"]);
+                        m.insert(k2.to_string(), gen_value(rng, special));
+                        Value::Object(m)
+                    }
+                    Value::Array(_) => gen_array(rng, special),
+                    _ => gen_value(rng, special),
+                };
+                sets.push((k, v));
+            }
+        }
+        c.phases.push(Phase { fresh: rng.chance(1, 3), sets });
+    }
+    c
 }
 
 fn gen(rng: &mut Rng, n: usize, _tier: &str) -> Vec<String> {
     std::panic::set_hook(Box::new(|_| {})); // the generator probes evaluate_expression, which can panic
-    (0..n).map(|_| ser_case(&gen_case(rng))).collect()
+    let mut out: Vec<String> = (0..n).map(|_| ser_case(&gen_case(rng))).collect();
+    // dedicated families (see each function) after the main stream: n/20 cases each, n/10 of the moving-threshold one
+    for _ in 0..n / 20 {
+        out.push(ser_case(&gen_long_in(rng)));
+        out.push(ser_case(&gen_tight(rng)));
+        out.push(ser_case(&gen_moving(rng)));
+        out.push(ser_case(&gen_moving(rng)));
+        out.push(ser_case(&gen_again(rng)));
+    }
+    out
 }
 
 // ------------------------------------------------------------------ shrinking
@@ -1060,6 +1538,45 @@ fn shrink(case: &str) -> Vec<String> {
     }
     if c.grl {
         out.push(Case { grl: false, ..c.clone() });
+    }
+    // fewer calls, fewer replaced facts, fewer cycles
+    for ps in shrink_list(&c.phases) {
+        out.push(Case { phases: ps, ..c.clone() });
+    }
+    for i in 0..c.phases.len() {
+        for sets in shrink_list(&c.phases[i].sets) {
+            let mut d = c.clone();
+            d.phases[i].sets = sets;
+            out.push(d);
+        }
+        if c.phases[i].fresh {
+            let mut d = c.clone();
+            d.phases[i].fresh = false;
+            out.push(d);
+        }
+    }
+    if c.max_cycles > 1 {
+        out.push(Case { max_cycles: 1, ..c.clone() });
+        out.push(Case { max_cycles: c.max_cycles - 1, ..c.clone() });
+    }
+    // shorter membership lists (literal on the right of a single-leaf condition, or held in a fact)
+    for i in 0..c.rules.len() {
+        if let Cond::Field(n, op, SRhs::Lit(Value::Array(xs))) = &c.rules[i].cond {
+            for ys in shrink_list(xs).into_iter().take(12) {
+                let mut d = c.clone();
+                d.rules[i].cond = Cond::Field(n.clone(), op.clone(), SRhs::Lit(Value::Array(ys)));
+                out.push(d);
+            }
+        }
+    }
+    for i in 0..c.facts.len() {
+        if let Value::Array(xs) = &c.facts[i].1 {
+            for ys in shrink_list(xs).into_iter().take(6) {
+                let mut d = c.clone();
+                d.facts[i].1 = Value::Array(ys);
+                out.push(d);
+            }
+        }
     }
     out.iter().map(ser_case).collect()
 }
